@@ -406,8 +406,11 @@ def cli_prefetch(case, a):
         db = db.select(ksize=KSIZE, moltype="DNA", containment=True)
         if not db:
             continue
-        for r in db.prefetch(q2, float(bptext)):
-            arows.append((r.signature.name, r.signature.md5sum(), float(r.score).hex()))
+        # the command's own API route: search.prefetch_database = Index.prefetch + PrefetchResult.pass_threshold
+        # (since 9b4a943 a row below threshold_bp after downsampling is skipped; before, it was asserted on)
+        from sourmash.search import prefetch_database
+        for r in prefetch_database(q2, db, float(bptext)):
+            arows.append((r.match.name, r.match.md5sum(), float(r.f_match_query).hex()))
 
     def hs(x):
         return (f"{x[0][2]}:" + ".".join(map(str, x[0][3]))) if x else "-"
